@@ -174,6 +174,12 @@ VARIANTS = [
     V("twin: repetition count written first", ("C11", "C19"), "", "core.py", '((1,),) * (len(axis) - 1) + group_chunks', '(len(axis) - 1) * ((1,),) + group_chunks', expect="silent"),
     V("twin: last index taken as a slice", ("C11", "C19"), "", "core.py", 'out_inds = new_inds + inds[: -len(axis)] + (inds[-1],)', 'out_inds = new_inds + inds[: -len(axis)] + inds[-1:]', expect="silent"),
     V("output indices keep one reduced axis too many", ("C11", "C19"), "R-ARITY", "core.py", 'out_inds = new_inds + inds[: -len(axis)] + (inds[-1],)', 'out_inds = new_inds + inds[: -len(axis) + 1] + (inds[-1],)', must_mention="zip(out_inds"),
+    V("planner: block-id shortcut guarded by the total length only", ("C09",), "R-BITMASK", "core.py", '    if len(chunks) == 1 and all(c == 1 for c in chunks[0]):', '    if shape == (nchunks,):', must_mention="(2, 0, 1)"),
+    V("twin: block-id shortcut guard with another loop variable", ("C09",), "", "core.py", '    if len(chunks) == 1 and all(c == 1 for c in chunks[0]):', '    if len(chunks) == 1 and all(size == 1 for size in chunks[0]):', expect="silent"),
+    V("cohort block keys gathered with slices and meshes mixed", ("C09", "C19"), "R-MESHINDEX", "core.py", '    new_keys = array._key_array[np.ix_(*positions)]', '    new_keys = array._key_array[index]', must_mention="mixes"),
+    V("twin: open mesh bound to a local first", ("C09", "C19"), "", "core.py", '    new_keys = array._key_array[np.ix_(*positions)]', '    mesh = np.ix_(*positions)\n    new_keys = array._key_array[mesh]', expect="silent"),
+    V("explicit axis tuple keeps the user's order", ("C08", "C02", "C19"), "R-AXISORDER", "core.py", '        axis_ = tuple(sorted(normalize_axis_tuple(axis, array.ndim)))', '        axis_ = normalize_axis_tuple(axis, array.ndim)', must_mention="axis=(1, 0)"),
+    V("twin: axis tuple sorted in a second statement", ("C08", "C02", "C19"), "", "core.py", '        axis_ = tuple(sorted(normalize_axis_tuple(axis, array.ndim)))', '        axis_ = normalize_axis_tuple(axis, array.ndim)\n        axis_ = tuple(np.sort(axis_).tolist())', expect="silent"),
     V("dtype promotion memoised with an untyped key", ("C14",), "R-MEMO", "xrdtypes.py", '        dtype = np.result_type(dtype, fill_value)\n    return dtype\n',
       '        dtype = _promote_for_fill_value(dtype, fill_value)\n    return dtype\n\n\n@functools.lru_cache\ndef _promote_for_fill_value(dtype: np.dtype, fill_value) -> np.dtype:\n    return np.result_type(dtype, fill_value)\n', must_mention="typed"),
     V("twin: dtype promotion memoised with typed=True", ("C14",), "", "xrdtypes.py", '        dtype = np.result_type(dtype, fill_value)\n    return dtype\n',
